@@ -1126,8 +1126,8 @@ Theorem print_object_keys_ascending_proof : forall h oid out,
   keys_ascending keys /\ strictly_ascending keys /\ NoDup keys /\
   exists parts, length parts = length keys /\ out = render_object (combine keys parts).
 Proof.
-  intros h oid out Hs E keys. unfold pretty_string in E. rewrite container_fuel_S in E.
-  destruct (pretty_object_keys_ascending_proof _ _ _ _ _ _ _ Hs E eq_refl) as (K1 & K2 & K3 & parts & HF & Ho).
+  intros h oid out Hs E keys. destruct (pretty_string_inv _ _ _ E) as [n En].
+  destruct (pretty_object_keys_ascending_proof _ _ _ _ _ _ _ Hs En eq_refl) as (K1 & K2 & K3 & parts & HF & Ho).
   split; [exact K1|]. split; [exact K2|]. split; [exact K3|].
   exists parts. split; [|exact Ho].
   unfold keys. rewrite map_length. symmetry. eapply Forall2_same_length. exact HF.
@@ -1180,7 +1180,10 @@ Qed.
 
 Theorem to_go_value_sorted_proof : forall h v j,
   heap_objs_sorted h -> to_go_value h v = GoOk j -> wf_jvalue j.
-Proof. intros h v j Hs E. eapply to_go_fuel_wf; [exact Hs|exact E]. Qed.
+Proof.
+  intros h v j Hs E. destruct (to_go_value_inv _ _ _ E ltac:(discriminate)) as [n En].
+  eapply to_go_fuel_wf; [exact Hs|exact En].
+Qed.
 
 (* the keys of the JSON object a heap object converts to *)
 Theorem to_go_object_keys_proof : forall h oid j,
@@ -1188,7 +1191,8 @@ Theorem to_go_object_keys_proof : forall h oid j,
   jobj_keys j = map fst (get_obj h oid) /\ keys_ascending (jobj_keys j) /\ wf_jvalue j.
 Proof.
   intros h oid j Hs E. pose proof (to_go_value_sorted_proof h _ j Hs E) as Hw.
-  unfold to_go_value in E. rewrite container_fuel_S, to_go_fuel_S in E.
+  destruct (to_go_value_inv _ _ _ E ltac:(discriminate)) as [n En]. clear E. rename En into E.
+  rewrite to_go_fuel_S in E.
   cbn [andb] in E.
   destruct (tg_fields h _ (get_obj h oid)) as [[js|]|] eqn:Ef; try discriminate.
   inversion E; subst.
